@@ -30,7 +30,7 @@ CHECKS = {
     "C04": dict(
         level="model_checking",
         technique="explicit-state breadth-first search (stateright) whose transition function is the real HashMapContext API run in lock-step with an abstract map model; plus unmerged depth-3 histories",
-        text="All reachable abstract states of a HashMapContext over 2 names x 15 values (incl. 1.0, 0.0, -0.0, NaN and a string spelling a variable name) x 2 function slots x the builtin switch, every operation in every state (set_value, expression assignments with all 9 assignment operators, clears, set_function, switch, clone), return value and full observation compared with the model after each transition; closed sub-machine to closure, op-assign machine to the fixpoint of a magnitude box (thorough). This is the finite-state protocol case model checking is made for. Plus every history of <= 4 / 5 operations (call in three ways, clone, clone_from) over up to three contexts holding a stateful user function (a counter its Clone deep-copies) against one counter per context.",
+        text="All reachable abstract states of a HashMapContext over 2 names x 15 values (incl. 1.0, 0.0, -0.0, NaN and a string spelling a variable name) x 2 function slots x the builtin switch, every operation in every state (set_value, expression assignments with all 9 assignment operators, clears, set_function, switch, clone), return value and full observation compared with the model after each transition; closed sub-machine to closure, op-assign machine to the fixpoint of a magnitude box (thorough). This is the finite-state protocol case model checking is made for.",
         note="Trusted: the abstract map model (RCtx in mc/src/refmodel/interp.rs); state merging by observation (hidden state is covered by the unmerged-history pass to its depth only).",
         design_ref="DESIGN.md section 4, C04",
     ),
